@@ -172,11 +172,10 @@ theorem C15_create_selects_iff (c : CreateCfg) :
   cases awqSelected c <;> simp
   split <;> simp
 
-/-- T8: the text of `optimize` and of `_to_copy` is what the model assumes (a subclass instance is
-returned as is; a subclass instance is converted back before it changes device type; the result is
-built by `create`). -/
-theorem C15_optimize_to_copy_text :
-    Generated.awqOptimizeConds = ["type(self) != QBitsTensor", "=> return self"] ∧
+/-- T8: the text of `_to_copy` — the one decision of this family that cannot be executed without a
+GPU — is what the model assumes: a subclass instance is converted back before it changes device type,
+and the result is built by `create`.  (`optimize` is tied behaviourally: `optimize15`.) -/
+theorem C15_to_copy_text :
     Generated.awqToCopyConds.getD 1 "" = "type(t) != QBitsTensor | t.device.type != device.type => t = t.qbits_tensor()" ∧
     Generated.awqToCopyConds.getLast? = some "return QBitsTensor.create" := by decide
 
